@@ -295,6 +295,38 @@ def case_form(rep):
             run.compare("form.nonsymmetric", "form=convection clause=entries parallel=%s" % parallel, maxabs(got - Kn) / maxabs(Kn), 1e-12,
                         "a weak form that is not symmetric in (v, u) assembles other entries than the defining sum (rows = test function)",
                         unit="form:nonsymmetric", config=(fam, "nonsymmetric", parallel))
+        # two fields with EQUALLY SHAPED bases in one container (two scalar or two vector fields) and an off-diagonal weak form that
+        # is not symmetric within its block: the documented `sym` shortcut concerns diagonal blocks only, so every combination of
+        # sym / parallel has to give the defining sums (naive loops; lower-left block = transpose of the upper-right one)
+        k2 = (1, d)[rep % 2]
+        f2 = fem.FieldContainer([fem.Field(reg, dim=k2), fem.Field(reg, dim=k2)])
+        c11 = float(rng.uniform(0.5, 2))
+        twin = fem.Form(v=f2, u=f2, kwargs={"w": wv, "c": c11})(lambda: [
+            lambda v, u, w, c: ddot(grad(v), grad(u)),
+            lambda v, p, w, c: np.einsum("i...,ij...,j->...", v, grad(p), w),
+            lambda q, p, w, c: c * np.einsum("i...,i...->...", q, p)])
+        npt = mesh.npoints
+        K2n = np.zeros((2 * npt * k2, 2 * npt * k2))
+        b00 = np.einsum("ajqc,bjqc,qc->cab", dh, dh, reg.dV)
+        b01 = np.einsum("aqc,bqc,qc->cab", hh, dhw, reg.dV)
+        b11 = c11 * np.einsum("aqc,bqc,qc->cab", hh, hh, reg.dV)
+        off = npt * k2
+        for c in range(nc):
+            for a in range(mesh.cells.shape[1]):
+                for b_ in range(mesh.cells.shape[1]):
+                    for i in range(k2):
+                        ra, cb = k2 * mesh.cells[c, a] + i, k2 * mesh.cells[c, b_] + i
+                        K2n[ra, cb] += b00[c, a, b_]
+                        K2n[ra, off + cb] += b01[c, a, b_]
+                        K2n[off + cb, ra] += b01[c, a, b_]
+                        K2n[off + ra, off + cb] += b11[c, a, b_]
+        for parallel in (False, True):
+            for symm in (False, True):
+                got = twin.assemble(parallel=parallel, sym=symm).toarray()
+                run.compare("form.twin-fields", "form=twin-fields dim=%s parallel=%s sym=%s clause=entries" % ("scalar" if k2 == 1 else "vector", parallel, symm),
+                            maxabs(got - K2n) / maxabs(K2n), 1e-12,
+                            "a mixed Form on two equally shaped fields with a non-symmetric off-diagonal block assembles other entries than the defining sums",
+                            unit="form:twin-fields:sym=%s" % symm, config=(fam, "twin", k2, parallel, symm))
         # the same Form object used for fields of another region (documented: v=, u= hand over other fields): basis functions AND
         # differential volumes are those of the fields given, then back to the first ones
         meshB = mesh.copy(points=mesh.points @ gen.random_affine(rng, d)[0].T * float(rng.uniform(1.5, 2.5)))
@@ -394,7 +426,7 @@ SPEC = {
                        "kind:planestrain uniform", "mixed:cartesian:n=3", "mixed:cartesian:n=2", "mixed:planestrain:n=3",
                        "mixed:planestrain:n=2", "mixed:axisymmetric:n=3", "mixed:axisymmetric:n=2", "assemble(values=integrate())", "block-mode=1", "block-mode=2", "block-mode=3", "none-block", "parallel-einsum", "dual-points-per-cell=1",
                        "dual-points-per-cell=4", "dual-points-per-cell=3", "distinct-thread-completion-orders>=2",
-                       "form:linear:parallel=True", "form:linear:parallel=False", "form:parallel-basis", "form:nonsymmetric", "form:other-region"]
+                       "form:linear:parallel=True", "form:linear:parallel=False", "form:parallel-basis", "form:nonsymmetric", "form:other-region", "form:twin-fields:sym=True", "form:twin-fields:sym=False"]
     + ["form:%s:parallel=%s:sym=%s" % (k, p, s) for k in ("bilinear", "mixed") for p in (True, False) for s in (True, False)],
     "rule": ("random integrand arrays of every admissible tensor order (full and (1,1)-broadcast trailing axes) for single fields "
              "(Cartesian 2D/3D vector, scalar, plane strain with 3D integrands, axisymmetric) on 9 element families incl. uniform "
